@@ -40,6 +40,29 @@ def pool_strategy(draw):
     for _ in range(3):
         sp = draw(S.any_spec(families=("nlp", "nlp", "qp", "infeasible", "degenerate"), max_n=4, max_m=2))
         specs.append(sp)
+    if draw(st.booleans()):
+        # "colliding twins": problem 1 is problem 0 with its variables permuted and sparse data, so that
+        # the two share every coarse key a cache might use (sizes, numbers of stored entries) but not the
+        # sparsity pattern; problem 2 keeps its own (different) size
+        n = draw(st.integers(4, 6))
+        hub = draw(st.integers(0, n - 1))
+        Q = np.diag([1.0 + draw(st.integers(0, 8)) / 8.0 for _ in range(n)])
+        for j in range(n):
+            if j != hub:
+                Q[hub, j] = Q[j, hub] = draw(st.sampled_from([-0.25, 0.125, 0.25]))
+        Q[hub, hub] += 2.0
+        a = [draw(st.sampled_from([-1.0, 0.5, 1.0, 2.0])) for _ in range(n)]
+        base = {"n": n, "m": 1, "Q": Q.tolist(), "q": S.dvec(draw, n), "A": [a], "b": [draw(st.integers(-8, 8)) / 8.0],
+                "lb": [-float("inf")] * n, "ub": [float("inf")] * n, "cl": [0.0], "cu": [0.0],
+                "fmt": draw(S.FMT), "family": "twin"}
+        perm = draw(st.permutations(list(range(n))))
+        P = np.eye(n)[perm]
+        twin = dict(base)
+        twin["Q"] = (P @ Q @ P.T).tolist()
+        twin["q"] = (P @ np.array(base["q"])).tolist()
+        twin["A"] = [(P @ np.array(a)).tolist()]
+        specs[0], specs[1] = base, twin
+    for sp in specs:
         starts.append([draw(S.start_point(sp)), draw(S.start_point(sp))])
     params = []
     for _ in range(3):
